@@ -285,6 +285,73 @@ package gates
 //@   loop 6 invariant forall(c, 0, g.numCopies, ra_item_ok(constraints, vars.localWires, g, c))
 //@   loop 6 invariant forall(k, 0, i, constraints[g.numCopies * (g.bits + 2) + k] == qe_subo(vars.localConstants[k], vars.localWires[ra_stride(g) * g.numCopies + k]))
 
+// CosetInterpolationGate (plonky2 coset_interpolation.rs), verified per (subgroup_bits, degree) in 2..4 x 2..6:
+//   constraints = evaluation_point - shift*shifted_point, then for every intermediate i the differences between the
+//   intermediate eval / prod wires and the running partial barycentric interpolation (chunks of degree-1 points after
+//   the first `degree`), then evaluation_value - final eval.  cg_st(i) is the running (eval, prod) after i chunks.
+//@ def cg_np(g) = pow2(g.subgroupBits)
+//@ def cg_nint(g) = (pow2(g.subgroupBits) - 2) / (g.degree - 1)
+//@ def cg_si(g) = 5 + 2 * cg_np(g)
+//@ def cg_lo(d, i) = 1 + (d - 1) * i
+//@ def cg_hi(d, np, i) = ite(cg_lo(d, i) + d - 1 <= np, cg_lo(d, i) + d - 1, np)
+//@ recdef cg_st(dom []int, vals []QE2, ws []int, sp QE2, w []QE, si int, np int, d int, nint int, i int) [8]int = ite(i <= 0,
+//@        qea_pint(dom[0:d], vals[0:d], ws[0:d], sp, tuple(tuple(0, 0), tuple(0, 0)), tuple(tuple(1, 0), tuple(0, 0)), d),
+//@        qea_pint(dom[cg_lo(d, i):cg_hi(d, np, i)], vals[cg_lo(d, i):cg_hi(d, np, i)], ws[cg_lo(d, i):cg_hi(d, np, i)], sp, qea_w(w, si + 2*(i-1)), qea_w(w, si + 2*(nint + i - 1)), cg_hi(d, np, i) - cg_lo(d, i)))
+//@ func (g *CosetInterpolationGate) EvalUnfiltered(api frontend.API, glApi *gl.Chip, vars EvaluationVars) (res []gl.QuadraticExtensionVariable)
+//@   props C15
+//@   circuit
+//@   cases g.subgroupBits 2 5
+//@   cases g.degree 2 7
+//@   requires gv_ok(glApi, vars) && 2 <= g.subgroupBits && g.subgroupBits < 5 && 2 <= g.degree && g.degree < 7
+//@   complete_requires len(g.barycentricWeights) >= cg_np(g) && g.degree <= cg_np(g) && len(vars.localWires) >= cg_si(g) + 4 * cg_nint(g) + 2
+//@   ghost domain []goldilocks.Element
+//@   ghost values []gl.QuadraticExtensionAlgebraVariable
+//@   ensures len(values) == cg_np(g) && forall(k, 0, cg_np(g), values[k] == qea_w(vars.localWires, 1 + 2*k))
+//@   ensures len(domain) == cg_np(g) && domain[0] == 1 && forall(k, 1, cg_np(g), domain[k] == (domain[k-1] * gl_sq_iter0(1753635133440165772, 32 - g.subgroupBits)) % P)
+//@   ensures len(res) == 4 + 4 * cg_nint(g) && canonQEs(res)
+//@   ensures tuple(res[0], res[1]) == qea_addo(qea_smulo(qe_smul(vars.localWires[0], P - 1), qea_w(vars.localWires, cg_si(g) + 4 * cg_nint(g))), qea_w(vars.localWires, 1 + 2 * cg_np(g)))
+//@   ensures forall(i, 0, cg_nint(g), tuple(res[2 + 4*i], res[3 + 4*i]) == qea_subo(qea_w(vars.localWires, cg_si(g) + 2*i), qea_at(cg_st(domain, values, g.barycentricWeights, qea_w(vars.localWires, cg_si(g) + 4 * cg_nint(g)), vars.localWires, cg_si(g), cg_np(g), g.degree, cg_nint(g), i), 0)))
+//@   ensures forall(i, 0, cg_nint(g), tuple(res[4 + 4*i], res[5 + 4*i]) == qea_subo(qea_w(vars.localWires, cg_si(g) + 2*(cg_nint(g) + i)), qea_at(cg_st(domain, values, g.barycentricWeights, qea_w(vars.localWires, cg_si(g) + 4 * cg_nint(g)), vars.localWires, cg_si(g), cg_np(g), g.degree, cg_nint(g), i), 4)))
+//@   ensures tuple(res[2 + 4 * cg_nint(g)], res[3 + 4 * cg_nint(g)]) == qea_subo(qea_w(vars.localWires, 3 + 2 * cg_np(g)), qea_at(cg_st(domain, values, g.barycentricWeights, qea_w(vars.localWires, cg_si(g) + 4 * cg_nint(g)), vars.localWires, cg_si(g), cg_np(g), g.degree, cg_nint(g), cg_nint(g)), 0))
+
+// PoseidonMdsGate (plonky2 poseidon_mds.rs): outputs - MDS(inputs) over the extension algebra, the MDS row being
+// the circulant/diagonal combination with the module's MDS_MATRIX_CIRC / MDS_MATRIX_DIAG (compared with plonky2's in C09).
+//@ def pm_in(w) = mktuple(12, i, qea_w(w, 2*i))
+//@ def pm_row(v, r) = qea_addo(iterate(12, i, acc, tuple(tuple(0, 0), tuple(0, 0)), qea_addo(acc, qea_smulo(tuple(poseidon.MDS_MATRIX_CIRC[i], 0), v[(i + r) % 12]))), qea_smulo(tuple(poseidon.MDS_MATRIX_DIAG[r], 0), v[r]))
+//@ func (g *PoseidonMdsGate) EvalUnfiltered(api frontend.API, glApi *gl.Chip, vars EvaluationVars) (res []gl.QuadraticExtensionVariable)
+//@   props C15
+//@   circuit
+//@   requires gv_ok(glApi, vars)
+//@   complete_requires len(vars.localWires) >= 48
+//@   ensures len(res) == 24 && canonQEs(res)
+//@   ensures forall(r, 0, 12, tuple(res[2*r], res[2*r + 1]) == qea_subo(qea_w(vars.localWires, 24 + 2*r), pm_row(pm_in(vars.localWires), r)))
+
+// PoseidonGate (plonky2 poseidon.rs eval_unfiltered), 123 constraints over the wires w:
+//   swap*(swap-1); swap*(rhs_i - lhs_i) - delta_i (i<4); then the permutation is replayed layer by layer, every S-box input
+//   of rounds 1..3, of the 22 partial rounds and of the last 4 full rounds being taken from its wire and constrained to
+//   equal the computed state; finally state - output.  Layers are the spe_* functions of package poseidon.
+//@ def pg_in(w) = mktuple(12, i, ite(i < 4, qe_addo(w[i], w[25 + i]), ite(i < 8, qe_subo(w[i], w[21 + i]), w[i])))
+//@ def pg_w0(w, r) = mktuple(12, i, w[29 + (r - 1)*12 + i])
+//@ def pg_w1(w, r) = mktuple(12, i, w[87 + r*12 + i])
+//@ def pg_st(f) = mktuple(12, i, tuple(f[2*i], f[2*i + 1]))
+//@ def pg_set0(s, v) = mktuple(12, i, ite(i == 0, v, s[i]))
+//@ def pg_prev0(w, r) = ite(r == 1, spe_mds(spe_sbox(spe_const(pg_in(w), 0))), spe_mds(spe_sbox(pg_w0(w, ite(r == 1, 1, r - 1)))))
+//@ recdef pg_T(w []QE, r int) [24]int = ite(r <= 0, spe_pinit(spe_pfirst(spe_mds(spe_sbox(pg_w0(w, 3))))),
+//@        spe_pfast(pg_set0(pg_st(pg_T(w, r - 1)), ite(r - 1 < 21, qe_addo(qe_pow7(w[65 + r - 1]), qe_c(poseidon.FAST_PARTIAL_ROUND_CONSTANTS[ite(r - 1 < 21, r - 1, 0)])), qe_pow7(w[65 + r - 1]))), r - 1))
+//@ def pg_prev1(w, r) = ite(r == 0, pg_st(pg_T(w, 22)), spe_mds(spe_sbox(pg_w1(w, ite(r == 0, 0, r - 1)))))
+//@ func (g *PoseidonGate) EvalUnfiltered(api frontend.API, glApi *gl.Chip, vars EvaluationVars) (res []gl.QuadraticExtensionVariable)
+//@   props C15
+//@   circuit
+//@   requires gv_ok(glApi, vars)
+//@   complete_requires len(vars.localWires) >= 135
+//@   ensures len(res) == 123 && canonQEs(res)
+//@   ensures res[0] == qe_mulo(vars.localWires[24], qe_subo(vars.localWires[24], tuple(1, 0)))
+//@   ensures forall(i, 0, 4, res[1 + i] == qe_subo(qe_mulo(vars.localWires[24], qe_subo(vars.localWires[i + 4], vars.localWires[i])), vars.localWires[25 + i]))
+//@   ensures forall(r, 1, 4, forall(i, 0, 12, res[5 + (r - 1)*12 + i] == qe_subo(spe_const(pg_prev0(vars.localWires, r), r)[i], vars.localWires[29 + (r - 1)*12 + i])))
+//@   ensures forall(r, 0, 22, res[41 + r] == qe_subo(pg_st(pg_T(vars.localWires, r))[0], vars.localWires[65 + r]))
+//@   ensures forall(r, 0, 4, forall(i, 0, 12, res[63 + r*12 + i] == qe_subo(spe_const(pg_prev1(vars.localWires, r), 26 + r)[i], vars.localWires[87 + r*12 + i])))
+//@   ensures forall(i, 0, 12, res[111 + i] == qe_subo(spe_mds(spe_sbox(pg_w1(vars.localWires, 3)))[i], vars.localWires[12 + i]))
+
 // ------------------------------------------------------------------ selector filtering (C15)
 // The dynamic call gate.EvalUnfiltered is used through the contract of the interface method: canonical results.
 // Every implementation under contract restates that postcondition (checked); its own preconditions beyond
